@@ -116,7 +116,7 @@ func evalCommand(line string) (string, string) {
 		}
 		return res, q(string(x)) + ".Join(" + strings.Join(l, ",") + ")"
 	case "go.cmd.history":
-		return cmdHistory(), line
+		return cmdHistory(false), line
 	}
 	return "bad-line", line
 }
